@@ -25,6 +25,7 @@ var c13Templates = []string{
 	"https://t.example/x$path", "https://t.example/x/$path", "https://$host$path", "https://$host/$path", "https://$host/x/$path",
 	"https://$host/", "https://t.example$path?own=1", "https://t.example/x/$path?own=1", "http://$host:8443/$path",
 	"https://t.example/a%20b/$path", // a template whose own path needs escaping
+	"https://t.example/docs#install", // a target with a fragment (no $path: the Location is the target as written)
 }
 
 // c13Expand: independent string-level expansion of the documented rule on the escaped path.
@@ -76,7 +77,7 @@ func c13Expand(tmpl, escPath, query, host, strip, prepend string) (string, bool)
 
 func TestVerifC13Inputs(t *testing.T) {
 	L := ev.Begin("C13", "c13-inputs", "exploration",
-		"14 redirect templates (every form of docs/http-redirects.md and target_test.go, with/without own query, $host, $path with and without separating slash, an own path that needs escaping) x request path (incl. %2F, %20, %C3%A4, strip-prefix-only) x query x host (with/without port) x strip x prepend (plus values of both that need escaping themselves and a strip prefix spelled with an escape) x code (301,302,303,307,308 valid; 299,400,abc invalid) x request kind (plain, websocket upgrade, event stream) x protocol version (HTTP/1.1, 1.0, 2) x forwarding headers naming another host, served by the real HTTPProxy.ServeHTTP; oracle: status, Location = independent expansion on the escaped path, upstream never contacted; invalid codes never redirect, every code 300..399 answers with that code, path-changing redirects on the own host are issued; self redirects are recognised with the scheme named by X-Forwarded-Proto and, for directly connected clients, with the scheme of the connection. non-trivial = template with $path or $host")
+		"15 redirect templates (every form of docs/http-redirects.md and target_test.go, with/without own query, $host, $path with and without separating slash, an own path that needs escaping, a fragment) x request path (incl. %2F, %20, %C3%A4, strip-prefix-only) x query x host (with/without port) x strip x prepend (plus values of both that need escaping themselves and a strip prefix spelled with an escape) x code (301,302,303,307,308 valid; 299,400,abc invalid) x request kind (plain, websocket upgrade, event stream) x protocol version (HTTP/1.1, 1.0, 2) x forwarding headers naming another host, served by the real HTTPProxy.ServeHTTP; oracle: status, Location = independent expansion on the escaped path, upstream never contacted; invalid codes never redirect, every code 300..399 answers with that code, path-changing redirects on the own host are issued; self redirects are recognised with the scheme named by X-Forwarded-Proto and, for directly connected clients, with the scheme of the connection. non-trivial = template with $path or $host")
 	paths := []string{"/", "/a", "/a/b", "/a%2Fb", "/a%20b", "/%C3%A4", "/s", "/s/a", "/s/a%2Fb"}
 	queries := []string{"", "q=1", "q=1&r=%2F"}
 	hosts := []string{"foo.com", "foo.com:8080"}
